@@ -14,7 +14,7 @@ PID = "C15"
 
 EXPONENTS = [1, 2, 3, 7, 1.0, 2.0, 5.0, 0, -1, -2, 0.0, -3.0, 0.5, 2.5, -0.5, 1e-9, 2 ** 40, float(2 ** 20),
              0.1 * 3 * 10, 2.000000001, 1.9999999995, 1000000.0005, 7 - 1e-12, 1.0000000000000002, 0.9999999999999999,
-             float("nan"), float("inf"), True]
+             float("nan"), float("inf"), True, 2 ** 53 + 1, 10 ** 17 + 1, 2 ** 64 - 1, 1e20, float(2 ** 53)]
 FOREIGN = [3, 2.5, "x", None, [1], (1,), {"a": 1}, object(), 0, 1, True, 1j]
 
 
@@ -79,7 +79,8 @@ def check_cases(cases: list[dict], rep: Report, known: dict) -> None:
                     rep.violation(f"a ** {k!r} is not NthPower(a, {int(k)}): {got!r}"[:400], info)
             elif got[0] == "ok":
                 rep.violation(f"a ** {k!r} was accepted: {got[1]!r}"[:400], info)
-            work.append((info, got, bt.ask(f"F0 op pow {c['a']} {pyval(k)}"), None))
+            inst = "Q" if isinstance(k, int) and abs(k) > 2 ** 53 else "F0"
+            work.append((info, got, bt.ask(f"{inst} op pow {c['a']} {pyval(k)}"), None))
         for f in FOREIGN:
             for name, op in (("add", lambda u, v: u + v), ("sub", lambda u, v: u - v), ("mul", lambda u, v: u * v),
                              ("div", lambda u, v: u / v), ("pow", lambda u, v: u ** v)):
